@@ -173,10 +173,11 @@ def _integrate_over(expr: ast.AST, generators: Sequence[ast.comprehension]) -> a
             if step == 1:
                 upper -= 1
             else:
-                n_steps = math.floor((upper - lower) / step)
-                lower = lower / step
-                upper = lower + n_steps
-                sym_expr = sym_expr.subs(integrand, step * integrand)
+                # range(lower, upper, step) is lower + step * k for k = 0 .. n_steps - 1
+                n_steps = max(math.ceil((upper - lower) / step), 0)
+                sym_expr = sym_expr.subs(integrand, lower + step * integrand)
+                lower = 0
+                upper = n_steps - 1
 
             sym_expr = sympy.Sum(sym_expr, (integrand, lower, upper))
 
@@ -262,7 +263,12 @@ def simplify_math_iterators(source: str) -> str:
                 for node in core.walk(arg, ast.Call)
             ):
                 continue
-            yield node, _integrate_over(arg.elt, arg.generators)
+            try:
+                replacement = _integrate_over(arg.elt, arg.generators)
+            except TypeError:
+                # E.g. range(1, n, 3): the number of steps is not known
+                continue
+            yield node, replacement
 
 
 @processing.fix
